@@ -219,7 +219,7 @@ func genStartup(r *Rng) []c16In {
 		named++
 	}
 	pat.WriteString(`$`)
-	sc := &c16Scenario{Kind: "startup", Workers: 8, Reps: 120, RaceReps: 6, Total: 24}
+	sc := &c16Scenario{Kind: "startup", Workers: 8, Reps: 300, RaceReps: 6, Total: 24}
 	var lines []string
 	for len(lines) < r.Range(3, 4) {
 		parts := make([]string, fields)
